@@ -67,6 +67,8 @@ type RTEnv struct {
 	OnFrame func(rc *RTConn, f Frame)
 	// CapToServer / CapToClient are the transport buffer sizes of every connection dialled (0: 4 MiB).
 	CapToServer, CapToClient int
+	// NoConnGrant: the scripted servers do not open their connection window beyond the initial 65535
+	NoConnGrant bool
 }
 
 func NewRTEnv(caseID string, opts http2.ClientOpts, serverSettings []wire.Setting) (*RTEnv, error) {
@@ -123,7 +125,9 @@ func NewRTEnvWith(caseID string, opts http2.ClientOpts, serverSettings []wire.Se
 			rc.P = p
 			e.mu.Unlock()
 			p.Write(append(SettingsFrame(e.Settings...), SettingsAck()...))
-			p.Write(WindowUpdate(0, 1<<24))
+			if !e.NoConnGrant {
+				p.Write(WindowUpdate(0, 1<<24))
+			}
 			p.readLoop()
 		}()
 		return cli, nil
